@@ -318,6 +318,16 @@ class C17(Check):
             variants.append(('wrong-type', json.dumps(dict(obj, **{n: 'a string'})).encode()))
             variants.append(('wrong-type2', json.dumps(dict(obj, **{n: [[1]]})).encode()))
             variants.append(('null-value', json.dumps(dict(obj, **{n: None})).encode()))
+        # an outdated file: the datatype of a parameter changed since the file was written (a struct member added
+        # or removed, narrower limits, fewer enum members, shorter arrays, ...)
+        dis = {p['name']: p['di'] for p in spec['params']}
+        for n in names:
+            if n in dis:
+                for w in dtgen.boundary_payloads(rng, dis[n], 4):
+                    try:
+                        variants.append(('outdated-' + dis[n]['type'], json.dumps(dict(obj, **{n: w})).encode()))
+                    except ValueError:
+                        pass
         variants.append(('unreadable', None))
         defaults_mod = None
         for kind, content in variants:
